@@ -501,3 +501,373 @@ def link(w, cfg):
     havoc(w, b, 'ub')
     w.ensure('after unlink a write to b is not visible in a', same_obs(w, pa, obs(a)))
     w.canary('canary: after unlink T still follows', w.eq(obs(a)['T'], obs(b)['T']))
+
+
+# =========================================================================== pickling (A-pickle) and constructors
+
+_ATOMIC = (type(None), bool, int, float, complex, str, bytes, type, type(Ellipsis), types.FunctionType,
+           types.BuiltinFunctionType, types.ModuleType, numpy.generic)
+
+
+def rebuild(obj, memo):
+    """
+    The object pickle.loads(pickle.dumps(obj)) builds, under assumption A-pickle: reconstruction calls exactly the
+    `__reduce_ex__(2)` recipe -- callable(*args), then the state (`__setstate__` or dict/slot assignment), then list
+    and dict items -- on recursively reconstructed arguments, shared references staying shared (memo).
+    Leaves (numbers, symbolic reals, strings, classes, functions) are taken as they are.  `memo` may be pre-seeded with
+    objects that are to be kept by reference (the property package, whose own recipe is checked separately).
+    """
+    from engine.sx.sym import is_sym
+    if is_sym(obj) or isinstance(obj, _ATOMIC):
+        return obj
+    key = id(obj)
+    if key in memo:
+        return memo[key][0]
+    t = type(obj)
+    if t is tuple:
+        new = tuple([rebuild(x, memo) for x in obj])
+        memo[key] = (new, obj)
+        return new
+    if t is list:
+        new = []
+        memo[key] = (new, obj)
+        new.extend(rebuild(x, memo) for x in obj)
+        return new
+    if t is dict:
+        new = {}
+        memo[key] = (new, obj)
+        for k, v in obj.items():
+            new[rebuild(k, memo)] = rebuild(v, memo)
+        return new
+    if t in (set, frozenset):
+        new = t(rebuild(x, memo) for x in obj)
+        memo[key] = (new, obj)
+        return new
+    if t is numpy.ndarray:
+        if obj.dtype == object:
+            new = numpy.empty(obj.shape, dtype=object)
+            flat = new.reshape(-1)
+            for n, x in enumerate(obj.flat): flat[n] = rebuild(x, memo)
+        else:
+            new = obj.copy()
+        memo[key] = (new, obj)
+        return new
+    if t is types.MethodType:      # pickled as getattr(self, name)
+        return getattr(rebuild(obj.__self__, memo), obj.__func__.__name__)
+    rv = obj.__reduce_ex__(2)
+    if isinstance(rv, str):        # a global, pickled by reference
+        return obj
+    rv = tuple(rv) + (None,) * (5 - len(rv))
+    func, args, state, listitems, dictitems = rv[:5]
+    new = rebuild(func, memo)(*rebuild(args, memo))
+    memo[key] = (new, obj)
+    if state is not None:
+        state = rebuild(state, memo)
+        setstate = getattr(new, '__setstate__', None)
+        if setstate is not None:
+            setstate(state)
+        else:
+            slotstate = None
+            if isinstance(state, tuple) and len(state) == 2:
+                state, slotstate = state
+            if state:
+                new.__dict__.update(state)
+            if slotstate:
+                for k, v in slotstate.items(): setattr(new, k, v)
+    if listitems is not None:
+        for x in listitems: new.append(rebuild(x, memo))
+    if dictitems is not None:
+        for k, v in dictitems: new[rebuild(k, memo)] = rebuild(v, memo)
+    return new
+
+
+def _by_reference(*objs):
+    return {id(o): (o, o) for o in objs}
+
+
+def unpickled(w, obj, keep=()):
+    """[recipe result] in symbolic mode; [recipe result, real pickle round-trip] natively."""
+    out = [rebuild(obj, _by_reference(*keep))]
+    if not w.symbolic:
+        out.append(pickle.loads(pickle.dumps(obj)))
+    return out
+
+
+def stream_configs(tier):
+    kinds = ['l', 'g', 'm:gl', 'm:Ll', 'c:gl', 'm:l']
+    if tier == 'thorough':
+        kinds += ['s', 'L', 'm:gls', 'm:g', 'c:Ll']
+    out = []
+    for k in kinds:
+        for ID in ['feed', None]:
+            for cf in ['given', 'none', 'added-later']:
+                if tier != 'thorough' and (ID is None or cf == 'added-later') and k not in ('l', 'm:gl'): continue
+                out.append({'name': f'kind={k};ID={ID};cf={cf}', 'kind': k, 'ID': ID, 'cf': cf})
+    return out
+
+
+@group('C13/stream_init_pickle', configs=stream_configs, assumptions=['A-pickle'],
+       functions=['thermosteam._stream:Stream.__init__', 'thermosteam._multi_stream:MultiStream.__init__',
+                  'thermosteam._stream:Stream.from_data', 'thermosteam._stream:Stream.__reduce__',
+                  'thermosteam._stream:Stream.get_data', 'thermosteam._stream:Stream.set_data', 'thermosteam._stream:StreamData',
+                  'thermosteam.indexer:ChemicalIndexer.__reduce__', 'thermosteam.indexer:MaterialIndexer.__reduce__',
+                  'thermosteam.indexer:ChemicalIndexer.from_data', 'thermosteam.indexer:MaterialIndexer.from_data',
+                  'thermosteam._phase:Phase.__reduce__', 'thermosteam._thermal_condition:ThermalCondition',
+                  'thermosteam.base.sparse:SparseVector (slot recipe)', 'thermosteam.base.sparse:SparseArray (slot recipe)'])
+def stream_init_pickle(w, cfg):
+    W.reset_caches()
+    th = W.thermo(A)
+    kind = cfg['kind']
+    phases = KINDS[kind]
+    T = w.real('T', lo=0., lo_strict=True)
+    P = w.real('P', lo=0., lo_strict=True)
+    price = w.real('price')
+    cf = {'GWP': w.real('cf.GWP'), 'FEC': w.real('cf.FEC')}
+    kw = dict(T=T, P=P, price=price, thermo=th)
+    if cfg['cf'] == 'given':
+        kw['characterization_factors'] = dict(cf)
+    given = {}
+    if kind.startswith('m:'):
+        for ph in phases:
+            given[ph, 'Water'] = w.real(f'f.{ph}.Water', lo=0., lo_strict=True)
+            given[ph, 'Methanol'] = w.real(f'f.{ph}.Methanol', lo=0., lo_strict=True)
+        s = tmo.MultiStream(cfg['ID'], phases=phases, **kw,
+                            **{ph: [('Water', given[ph, 'Water']), ('Methanol', given[ph, 'Methanol'])] for ph in phases})
+    else:
+        ph0 = phases[-1] if kind.startswith('c:') else phases
+        given[ph0, 'Water'] = w.real('f.Water', lo=0., lo_strict=True)
+        given[ph0, 'Methanol'] = w.real('f.Methanol', lo=0., lo_strict=True)
+        s = tmo.Stream(cfg['ID'], phase=ph0, Water=given[ph0, 'Water'], Methanol=given[ph0, 'Methanol'], **kw)
+        if kind.startswith('c:'):
+            s.phases = phases
+    if cfg['cf'] == 'added-later':
+        s.characterization_factors.update(cf)
+    exp_cf = {} if cfg['cf'] == 'none' else cf
+    cas = {ID: W.chemical(ID).CAS for ID in A}
+    exp_flows = {(ph, cas[ID]): v for (ph, ID), v in given.items()}
+    o = obs(s)
+    # ---- constructor arguments are carried
+    w.ensure('constructor: ID as given', s.ID == (cfg['ID'] or ''), ID=s.ID)
+    w.ensure('constructor: flows and phase(s) as given', w.And(set(o['phases']) == set(phases if not isinstance(phases, str) else [phases]),
+                                                                 eq_map(w, o['flows'], exp_flows)))
+    w.ensure('constructor: T and P as given', w.And(w.eq(o['T'], T), w.eq(o['P'], P)))
+    w.ensure('constructor: price as given', w.eq(s.price, price))
+    w.ensure('constructor: characterization factors as given',
+             w.And(set(s.characterization_factors) == set(exp_cf), eq_map(w, dict(s.characterization_factors), exp_cf)),
+             got=sorted(s.characterization_factors))
+    # ---- pickle round trip
+    cf_now = dict(s.characterization_factors)
+    rs = unpickled(w, s, keep=(th, th.chemicals))
+    w.ensure('pickle: original unchanged', w.And(same_obs(w, o, obs(s)), w.eq(s.price, price), eq_map(w, dict(s.characterization_factors), cf_now)))
+    for r in rs:
+        orr = obs(r)
+        w.ensure('pickle: same ID', r.ID == s.ID, got=r.ID, want=s.ID)
+        # a stream holding one phase may come back as the single-phase class (the library identifies the two: `phases` setter)
+        w.ensure('pickle: same class', type(r) is type(s) or (len(o['phases']) == 1 and isinstance(r, tmo.Stream)),
+                 got=type(r).__name__, want=type(s).__name__)
+        w.ensure('pickle: same flows and phase(s)', w.And(o['phases'] == orr['phases'], eq_map(w, o['flows'], orr['flows'])),
+                 got=orr['phases'], want=o['phases'])
+        w.ensure('pickle: same T and P', same_TP(w, o, orr))
+        w.ensure('pickle: same price', w.eq(r.price, price))
+        w.ensure('pickle: same characterization factors',
+                 w.And(set(r.characterization_factors) == set(cf_now), eq_map(w, dict(r.characterization_factors), cf_now)),
+                 got=sorted(r.characterization_factors), want=sorted(cf_now))
+        w.ensure('pickle: rep_ok', rep_ok(w, orr))
+        w.ensure('pickle: no container shared with the original',
+                 w.And(shared_roles(r, s) == [], r.characterization_factors is not s.characterization_factors))
+        w.ensure('pickle: phase views consistent', views_consistent(w, r))
+    r = rs[0]
+    havoc(w, r, 'wr')
+    w.ensure('pickle: later write to the unpickled stream is not visible in the original', same_obs(w, o, obs(s)))
+    w.canary('canary: unpickled price + 1', w.eq(rs[0].price, price + 1))
+    w.canary('canary: constructor T + 1', w.eq(o['T'], T + 1))
+
+
+# --------------------------------------------------------------------------- pickling of the parts, reactions, chemicals, packages
+
+PARTS = ['ChemicalMolarFlowIndexer:l', 'ChemicalMolarFlowIndexer:g', 'MolarFlowIndexer:gl', 'MolarFlowIndexer:Ll',
+         'SplitIndexer', 'Phase', 'LockedPhase', 'PhaseIndexer', 'ThermalCondition', 'StreamData:l', 'StreamData:gl',
+         'SparseVector', 'SparseArray', 'Reaction', 'Reaction:phases', 'ParallelReaction', 'Chemical', 'CompiledChemicals', 'Thermo']
+
+
+def parts_configs(tier):
+    return [{'name': f'part={p}', 'part': p} for p in PARTS]
+
+
+def _sv_eq(w, a, b):
+    return w.And(a.size == b.size, eq_map(w, dict(a.dct), dict(b.dct)), a.dct is not b.dct)
+
+
+def _sa_eq(w, a, b):
+    return w.And(len(a.rows) == len(b.rows), *[_sv_eq(w, x, y) for x, y in zip(a.rows, b.rows)])
+
+
+def _chemical_state(c):
+    T, P = 320., 101325.
+    vals = {k: getattr(c, k) for k in ('ID', 'CAS', 'MW', 'Tb', 'Tc', 'Pc', 'Hf', 'phase_ref', 'formula', 'locked_state')}
+    vals['aliases'] = sorted(c.aliases)
+    for name, args in (('Psat', (T,)), ('Hvap', (T,)), ('sigma', (T,))):
+        vals[name] = getattr(c, name)(*args)
+    for name in ('Cn', 'H', 'S', 'V', 'mu', 'kappa'):
+        for ph in 'lg':
+            f = getattr(c, name)
+            vals[name, ph] = f(ph, T, P) if name != 'Cn' else f(ph, T)
+    return vals
+
+
+def _state_eq(a, b):
+    if set(a) != set(b): return False
+    for k in a:
+        x, y = a[k], b[k]
+        if isinstance(x, float):
+            if not (x == y or abs(x - y) <= 1e-12 * max(abs(x), abs(y))): return False
+        elif x != y:
+            return False
+    return True
+
+
+@group('C13/pickle_parts', configs=parts_configs, assumptions=['A-pickle'],
+       functions=['thermosteam.indexer:ChemicalIndexer.__reduce__', 'thermosteam.indexer:MaterialIndexer.__reduce__',
+                  'thermosteam.indexer:SplitIndexer.__reduce__', 'thermosteam._phase:Phase.__reduce__',
+                  'thermosteam._phase:LockedPhase.__reduce__', 'thermosteam._phase:PhaseIndexer.__reduce__',
+                  'thermosteam._thermal_condition:ThermalCondition (slot recipe)', 'thermosteam._stream:StreamData (slot recipe)',
+                  'thermosteam.base.sparse:SparseVector (slot recipe)', 'thermosteam.base.sparse:SparseArray (slot recipe)',
+                  'thermosteam.reaction._reaction:Reaction (slot recipe)', 'thermosteam.reaction._reaction:ParallelReaction (slot recipe)',
+                  'thermosteam._chemical:Chemical.__reduce__', 'thermosteam._chemical:unpickle_chemical',
+                  'thermosteam._chemicals:CompiledChemicals.__reduce__', 'thermosteam.utils.pickle:cucumber',
+                  'thermosteam.utils.pickle:new_from_state', 'thermosteam._thermo:Thermo'])
+def pickle_parts(w, cfg):
+    W.reset_caches()
+    part = cfg['part']
+    th = W.thermo(A)
+    chems = th.chemicals
+    keep = (th, chems)
+    name, _, arg = part.partition(':')
+    if name in ('ChemicalMolarFlowIndexer', 'MolarFlowIndexer', 'StreamData'):
+        s = _mk(w, 's', arg if name == 'ChemicalMolarFlowIndexer' or arg == 'l' else 'm:' + arg, 'A', 'pos+maybe')
+        x = s.get_data() if name == 'StreamData' else s.imol
+        imol = x._imol if name == 'StreamData' else x
+        for r in unpickled(w, x, keep):
+            rimol = r._imol if name == 'StreamData' else r
+            w.ensure('same class', type(r) is type(x))
+            w.ensure('same chemicals', rimol.chemicals.IDs == imol.chemicals.IDs)
+            if hasattr(imol.data, 'rows'):
+                w.ensure('same phases', tuple(rimol.phases) == tuple(imol.phases))
+                w.ensure('same data, not shared', _sa_eq(w, rimol.data, imol.data))
+            else:
+                w.ensure('same phase, container not shared', w.And(rimol.phase == imol.phase, rimol._phase is not imol._phase))
+                w.ensure('same data, not shared', _sv_eq(w, rimol.data, imol.data))
+            if name == 'StreamData':
+                w.ensure('same T, P and phases', w.And(w.eq(r._T, x._T), w.eq(r._P, x._P), tuple(r._phases) == tuple(x._phases)))
+        w.canary('canary: T + 1', w.eq(s.T, s.T + 1))
+    elif name == 'SplitIndexer':
+        x = tmo.indexer.SplitIndexer(chemicals=chems)
+        vals = {ID: w.real(f'split.{ID}', lo=0., hi=1., lo_strict=True) for ID in ('Water', 'Methanol')}
+        for ID, v in vals.items(): x[ID] = v
+        for r in unpickled(w, x, keep):
+            w.ensure('same class', type(r) is type(x))
+            w.ensure('same chemicals', r.chemicals.IDs == x.chemicals.IDs)
+            w.ensure('same data, not shared', _sv_eq(w, r.data, x.data))
+            w.ensure('same splits by ID', w.And(*[w.eq(r[ID], v) for ID, v in vals.items()], w.eq(r['Ethanol'], 0.)))
+        w.canary('canary: split + 1', w.eq(x['Water'], vals['Water'] + 1))
+    elif name in ('Phase', 'LockedPhase'):
+        cls = getattr(tmo._phase, name)
+        for ph in ('l', 'g', 'S'):
+            x = cls(ph)
+            for r in unpickled(w, x):
+                w.ensure('same phase', r.phase == ph)
+                w.ensure('is a Phase', isinstance(r, tmo._phase.Phase))
+                if name == 'Phase':
+                    w.ensure('container not shared', r is not x)
+        w.canary('canary: phase differs', w.eq(1., 2.))
+    elif name == 'PhaseIndexer':
+        for phs in (('g', 'l'), ('L', 'l'), ('g', 'l', 's'), ('l',)):
+            x = tmo._phase.PhaseIndexer(phs)
+            for r in unpickled(w, x):
+                w.ensure('same phases and indices', w.And(r.phases == x.phases, *[r(p) == x(p) for p in phs]))
+                w.ensure('phase indexers stay unique per phase set', r is x)
+        w.canary('canary: index differs', w.eq(1., 2.))
+    elif name == 'ThermalCondition':
+        T = w.real('T', lo=0., lo_strict=True); P = w.real('P', lo=0., lo_strict=True)
+        x = tmo.ThermalCondition(T, P)
+        for r in unpickled(w, x):
+            w.ensure('same class', type(r) is type(x))
+            w.ensure('same T and P', w.And(w.eq(r.T, T), w.eq(r.P, P)))
+            w.ensure('container not shared', r is not x)
+        w.canary('canary: T + 1', w.eq(x.T, T + 1))
+    elif name in ('SparseVector', 'SparseArray'):
+        s = _mk(w, 's', 'l' if name == 'SparseVector' else 'm:gl', 'A', 'pos+maybe', TP=False)
+        x = s.imol.data
+        for r in unpickled(w, x):
+            w.ensure('same class', type(r) is type(x))
+            w.ensure('same data, not shared', _sv_eq(w, r, x) if name == 'SparseVector' else _sa_eq(w, r, x))
+        v0 = (x if name == 'SparseVector' else x.rows[0]).dct[0]
+        w.canary('canary: value + 1', w.eq(v0, v0 + 1))
+    elif name in ('Reaction', 'ParallelReaction'):
+        X = w.real('X', lo=0., hi=1.)
+        nu = w.real('nu', lo=0., lo_strict=True)
+        if arg == 'phases':
+            x = tmo.Reaction('Water,l -> Ethanol,g', reactant='Water', X=X, chemicals=chems)
+            x._stoichiometry[1, chems.index('Ethanol')] = nu
+        else:
+            x = tmo.Reaction({'Water': -1, 'Ethanol': nu}, reactant='Water', X=X, chemicals=chems)
+        if name == 'ParallelReaction':
+            X2 = w.real('X2', lo=0., hi=1.)
+            x2 = tmo.Reaction({'Methanol': -1, 'Ethanol': 0.5}, reactant='Methanol', X=X2, chemicals=chems)
+            x = tmo.ParallelReaction([x, x2])
+        for r in unpickled(w, x, keep):
+            w.ensure('same class', type(r) is type(x))
+            w.ensure('same chemicals, basis, phases, reactant',
+                     w.And(r.chemicals.IDs == x.chemicals.IDs, r.basis == x.basis, tuple(r.phases) == tuple(x.phases),
+                           r._reactant_index == x._reactant_index if name == 'Reaction' else list(r._reactant_index) == list(x._reactant_index)))
+            if name == 'ParallelReaction':
+                w.ensure('same conversions', w.And(len(r.X) == 2, w.eq(r.X[0], X), w.eq(r.X[1], X2), r._X is not x._X))
+            else:
+                w.ensure('same conversion', w.eq(r.X, X))
+            st_r, st_x = r._stoichiometry, x._stoichiometry
+            if isinstance(st_x, (list, tuple)):
+                ok = w.And(len(st_r) == len(st_x), *[_sv_eq(w, a, b) for a, b in zip(st_r, st_x)])
+            else:
+                ok = _sa_eq(w, st_r, st_x) if hasattr(st_x, 'rows') else _sv_eq(w, st_r, st_x)
+            w.ensure('same stoichiometry, not shared', ok)
+        w.canary('canary: X + 1', w.eq(x.X if name == 'Reaction' else x.X[0], X + 1))
+    elif name in ('Chemical', 'CompiledChemicals', 'Thermo'):
+        # nothing here is symbolic: the recipe is applied one level (fields handed over completely) in both modes,
+        # the real pickle round trip and the observable state of the result are compared natively
+        if name == 'Chemical':
+            xs = [W.chemical(ID) for ID in A]
+        elif name == 'CompiledChemicals':
+            xs = [chems, W.thermo(B).chemicals]
+        else:
+            xs = [th, W.thermo(B4)]
+        for x in xs:
+            rv = x.__reduce__()
+            r1 = rv[0](*rv[1])
+            if name == 'Chemical':
+                fields = x.__slots__
+                w.ensure('recipe hands over every field', all(getattr(r1, f, None) is getattr(x, f, None) for f in fields))
+            elif name == 'Thermo':
+                fields = ('chemicals', 'mixture', 'Gamma', 'Phi', 'PCF')
+                w.ensure('recipe hands over every field', all(getattr(r1, f) is getattr(x, f) for f in fields))
+            else:
+                w.ensure('recipe hands over every field', w.And(r1.IDs == x.IDs, all(a is b for a, b in zip(r1.tuple, x.tuple))))
+            w.ensure('recipe gives the same class', type(r1) is type(x))
+            if not w.symbolic:
+                r2 = pickle.loads(pickle.dumps(x))
+                if name == 'Chemical':
+                    ok = _state_eq(_chemical_state(r2), _chemical_state(x)) and r2 is not x
+                elif name == 'CompiledChemicals':
+                    ok = (r2.IDs == x.IDs and r2.CASs == x.CASs and list(r2.MW) == list(x.MW)
+                          and all(_state_eq(_chemical_state(a), _chemical_state(b)) for a, b in zip(r2.tuple, x.tuple)))
+                else:
+                    mol = numpy.arange(1., x.chemicals.size + 1.)
+                    ok = (r2.chemicals.IDs == x.chemicals.IDs and type(r2.mixture) is type(x.mixture)
+                          and r2.Gamma is x.Gamma and r2.Phi is x.Phi and r2.PCF is x.PCF
+                          and all(abs(getattr(r2.mixture, f)('l', mol, 320., 101325.) - getattr(x.mixture, f)('l', mol, 320., 101325.)) < 1e-9
+                                  for f in ('H', 'S', 'Cn', 'V')))
+                w.ensure('real pickle round trip: identical observable state', ok)
+            else:
+                w.ensure('real pickle round trip: identical observable state', True, note='evaluated natively only')
+        w.canary('canary: concrete', w.eq(1., 2.))
+    else:
+        raise ValueError(part)
